@@ -35,7 +35,7 @@ type encProtoCase struct {
 	Fmt    string `json:"fmt"`    // p1, p2
 	Prefix []int  `json:"prefix"` // first operations; the case enumerates every continuation up to Depth
 	Depth  int    `json:"depth"`
-	Seq    []int  `json:"seq,omitempty"` // replay: exactly this sequence
+	Seq    []int  `json:"seq,omitempty"`  // replay: exactly this sequence
 	Disk   bool   `json:"disk,omitempty"` // exported constructor on a real directory (else the same object on the owned in-memory filesystem)
 }
 
